@@ -343,3 +343,158 @@ Proof.
       * rewrite (He eq_refl). cbn [last fst]. apply olookup_oset_same.
       * change (last ((v, name) :: r :: rest') no_step) with (last (r :: rest') no_step). apply Hv. discriminate.
 Qed.
+
+(* ---- finite obligations over the generated registration table (re-checked whenever the table changes) ------------ *)
+
+(* every registered Go function has a transcription in model/Migrate.v *)
+Definition registered_known : bool :=
+  forallb (fun r : version * string => match migration_of_name (snd r) with Some _ => true | None => false end) registered.
+(* nothing is registered above definition.CurrentSpecVersion, and CurrentSpecVersion itself is registered *)
+Definition registered_le_current : bool :=
+  forallb (fun r : version * string => vle (fst r) current_spec_version) registered
+  && existsb (fun r : version * string => veqb (fst r) current_spec_version) registered.
+(* the stamp of every registered version reads back as that version *)
+Definition registered_roundtrip : bool :=
+  forallb (fun r : version * string =>
+             match parse_version (version_text (fst r)) with Some v => veqb v (fst r) | None => false end) registered.
+
+Lemma registered_known_true : registered_known = true.
+Proof. vm_compute. reflexivity. Qed.
+Lemma registered_le_current_true : registered_le_current = true.
+Proof. vm_compute. reflexivity. Qed.
+Lemma registered_roundtrip_true : registered_roundtrip = true.
+Proof. vm_compute. reflexivity. Qed.
+
+Lemma registered_le : forall r, In r registered -> vle (fst r) current_spec_version = true.
+Proof.
+  pose proof registered_le_current_true as H. apply andb_true_iff in H. destruct H as [H _].
+  rewrite forallb_forall in H. exact H.
+Qed.
+
+Lemma registered_rt : forall r, In r registered -> parse_version (version_text (fst r)) = Some (fst r).
+Proof.
+  pose proof registered_roundtrip_true as H. rewrite forallb_forall in H. intros r Hr. specialize (H r Hr).
+  destruct (parse_version (version_text (fst r))) as [v|]; [|discriminate].
+  unfold veqb in H. destruct (vcmp v (fst r)) eqn:E; try discriminate. apply vcmp_eq in E. now subst.
+Qed.
+
+(* ---- a definition already at (or beyond) the current version is returned as it is -------------------------------- *)
+
+Lemma header_is_object : forall j v, header_version j = Some v -> exists f, j = JObj f.
+Proof. intros j v H. destruct j; try discriminate. eauto. Qed.
+
+Lemma untouched : forall tx j to fr v,
+  header_version j = Some v -> vle current_spec_version v = true -> migrate_to tx j to fr = (MSame, fr).
+Proof.
+  intros tx j to fr v Hh Hv. destruct (header_is_object _ _ Hh) as [f ->].
+  unfold migrate_to, migrate_with. rewrite Hh.
+  rewrite select_nil; [reflexivity|]. intros r Hr. eapply vle_trans; [now apply registered_le | exact Hv].
+Qed.
+
+(* ---- the result carries the stamp of the last version applied; its header reads as that version ---------------------- *)
+
+Lemma header_after : forall f f' from v,
+  header_version (JObj f) = Some from ->
+  olookup k_uuid f' = olookup k_uuid f -> olookup k_name f' = olookup k_name f ->
+  olookup k_spec_version f' = Some (JStr (version_text v)) ->
+  header_version (JObj f') = parse_version (version_text v).
+Proof.
+  intros f f' from v Hh Hu Hn Hs. unfold header_version in *. rewrite Hu, Hn, Hs.
+  destruct (olookup k_uuid f) as [[| | |u| |]|]; try discriminate.
+  destruct (olookup k_spec_version f) as [[| | |sv| |]|]; try discriminate.
+  destruct (is_uuid4 u && _); [reflexivity | discriminate].
+Qed.
+
+Lemma migrate_out : forall tx j to fr j' fr',
+  migrate_to tx j to fr = (MOut j', fr') ->
+  exists from f f' step,
+    j = JObj f /\ j' = JObj f' /\ header_version j = Some from
+    /\ In step (select_versions registered from to)
+    /\ (forall r, In r (select_versions registered from to) -> vle (fst r) (fst step) = true)
+    /\ header_version j' = Some (fst step)
+    /\ graph j' = graph j.
+Proof.
+  intros tx j to fr j' fr' H. unfold migrate_to, migrate_with in H.
+  destruct (header_version j) as [from|] eqn:Hh; [|destruct j; discriminate].
+  destruct (header_is_object _ _ Hh) as [f ->].
+  destruct (select_versions registered from to) as [|s0 steps] eqn:Es; [discriminate|].
+  apply apply_versions_out in H. destruct H as [f' [-> [Hg [Hu [Hn [_ Hv]]]]]].
+  specialize (Hv ltac:(discriminate)).
+  set (step := last (s0 :: steps) no_step) in *.
+  assert (Hin : In step (s0 :: steps)) by (apply last_In; discriminate).
+  exists from, f, f', step. repeat split; try assumption.
+  - intros r Hr. apply sorted_last_max; [|exact Hr]. rewrite <- Es. apply select_sorted.
+  - rewrite (header_after f f' from (fst step) Hh Hu Hn Hv). apply registered_rt.
+    rewrite <- Es in Hin. apply select_In in Hin. tauto.
+Qed.
+
+(* the version stamp: the result's header names a registered version newer than the source's and within the target *)
+Lemma stamped : forall tx j to fr j' fr',
+  migrate_to tx j to fr = (MOut j', fr') ->
+  exists from v, header_version j = Some from /\ header_version j' = Some v
+    /\ In v (map fst registered) /\ vlt from v = true
+    /\ match to with None => v = current_spec_version | Some t => vle v t = true end.
+Proof.
+  intros tx j to fr j' fr' H. apply migrate_out in H.
+  destruct H as [from [f [f' [step [-> [-> [Hh [Hin [Hmax [Hh' _]]]]]]]]]].
+  exists from, (fst step). pose proof Hin as Hin'. apply select_In in Hin'. destruct Hin' as [Hr [Hlt Hto]].
+  repeat split; try assumption.
+  - now apply in_map.
+  - destruct to as [t|]; [exact Hto|].
+    (* latest: the current version is registered and newer than the source, so it was selected; it is the greatest *)
+    pose proof registered_le_current_true as Hc. apply andb_true_iff in Hc. destruct Hc as [_ Hc].
+    apply existsb_exists in Hc. destruct Hc as [c [Hc Hceq]].
+    unfold veqb in Hceq. destruct (vcmp (fst c) current_spec_version) eqn:E; try discriminate. apply vcmp_eq in E.
+    assert (Hcsel : In c (select_versions registered from None)).
+    { apply select_In. repeat split; [exact Hc|]. apply vlt_true. eapply vlt_le_trans; [apply vlt_true; exact Hlt|].
+      rewrite E. now apply registered_le. }
+    apply Hmax in Hcsel. rewrite E in Hcsel.
+    pose proof (registered_le _ Hr) as Hle.
+    apply vle_true in Hcsel, Hle. destruct (vcmp (fst step) current_spec_version) eqn:E2.
+    + now apply vcmp_eq in E2.
+    + apply vcmp_lt in E2. contradiction.
+    + apply vcmp_gt in E2. contradiction.
+Qed.
+
+(* ---- migrating again changes nothing ---------------------------------------------------------------------------------- *)
+
+Lemma idempotent : forall tx j fr j' fr',
+  migrate_to_latest tx j fr = (MOut j', fr') ->
+  forall tx' to fr2, migrate_to tx' j' to fr2 = (MSame, fr2).
+Proof.
+  intros tx j fr j' fr' H tx' to fr2. apply stamped in H.
+  destruct H as [from [v [_ [Hh' [_ [_ Hv]]]]]]. subst v.
+  eapply untouched; [exact Hh' | apply vle_refl].
+Qed.
+
+(* ---- the graph: flow uuid, nodes in order, every node's uuid and whole exits array ------------------------------------ *)
+
+Lemma graph_preserved : forall tx j to fr j' fr',
+  migrate_to tx j to fr = (MOut j', fr') -> graph j' = graph j.
+Proof.
+  intros tx j to fr j' fr' H. apply migrate_out in H.
+  destruct H as [from [f [f' [step [_ [_ [_ [_ [_ [_ Hg]]]]]]]]]]. exact Hg.
+Qed.
+
+(* ---- a definition with a readable header is never refused by the 13.x migrations ------------------------------------ *)
+
+Lemma apply_versions_total : forall tx steps fr f,
+  (forall r, In r steps -> exists m, migration_of_name (snd r) = Some m) ->
+  exists j' fr', apply_versions tx steps fr f = (MOut j', fr').
+Proof.
+  intros tx steps. induction steps as [|[v name] rest IH]; intros fr f Hk; cbn [apply_versions]; [eauto|].
+  destruct (Hk (v, name) (or_introl eq_refl)) as [m Hm]. cbn [snd] in Hm. rewrite Hm.
+  destruct (m tx fr f) as [f1 fr1]. apply IH. intros r Hr. apply Hk. now right.
+Qed.
+
+Lemma migrates : forall tx j to fr v,
+  header_version j = Some v ->
+  migrate_to tx j to fr = (MSame, fr) \/ exists j' fr', migrate_to tx j to fr = (MOut j', fr').
+Proof.
+  intros tx j to fr v Hh. destruct (header_is_object _ _ Hh) as [f ->].
+  unfold migrate_to, migrate_with. rewrite Hh.
+  destruct (select_versions registered v to) as [|s0 steps] eqn:Es; [now left|right].
+  apply apply_versions_total. intros r Hr. rewrite <- Es in Hr. apply select_In in Hr. destruct Hr as [Hr _].
+  pose proof registered_known_true as Hk. unfold registered_known in Hk. rewrite forallb_forall in Hk.
+  specialize (Hk r Hr). destruct (migration_of_name (snd r)) as [m|]; [eauto | discriminate].
+Qed.
